@@ -57,7 +57,7 @@ func (c *Ctx) Pct(p int, tag string) bool { return c.C.Choose(100, tag) >= 100-p
 // NewSim creates the kernel for this run.
 func (c *Ctx) NewSim() *kern.Sim {
 	c.Sim = kern.New(c.C)
-	c.Sim.TraceOn = c.Replay
+	c.Sim.TraceOn = c.Replay || os.Getenv("VW_TRACE_DUMP") != ""
 	return c.Sim
 }
 
@@ -163,6 +163,7 @@ type Result struct {
 	Deadlocks int               `json:"deadlocks"`
 	Known     map[string]int    `json:"known,omitempty"`
 	OutHash   string            `json:"out_hash,omitempty"` // digest over all runs' output digests, in order
+	RaceText  string            `json:"race_text,omitempty"` // the race detector's reports written during the violating run only
 }
 
 var knownSigs []string
@@ -228,6 +229,7 @@ func Main(t *testing.T, scens map[string]Scenario) {
 	outh := fnv.New64a()
 	progress := os.Getenv("VW_OUT") + ".progress"
 
+	var raceOff int64
 	runOne := func(run int, c *kern.Choices, replay bool) *Ctx {
 		ctx := &Ctx{C: c, Cfg: cfg, Prop: env("VW_PROP", ""), Replay: replay}
 		c.Limit = 200000
@@ -235,10 +237,19 @@ func Main(t *testing.T, scens map[string]Scenario) {
 			ctx.T = t
 			sc(ctx)
 		})
+		newRace := raceLogSince(&raceOff)
 		if !okRun && ctx.viol == nil {
 			// the test framework failed the sub-test although no oracle fired:
 			// the race detector reported during this run
-			ctx.viol = &Violation{Property: "C17", Oracle: "race", Signature: "race", Message: "race detector reported during this run (see race log)"}
+			if sig, dep := dependencyOnlyRaces(newRace); dep {
+				// both accesses of every report lie wholly inside third-party code (no frame of the library
+				// under test or of the harness on either access stack): a defect of that dependency, not a
+				// property of go-restli. Counted, not reported; the search goes on.
+				ctx.probes = append(ctx.probes, "race-inside-dependency:"+sig)
+			} else {
+				ctx.viol = &Violation{Property: "C17", Oracle: "race", Signature: "race", Message: "race detector reported during this run (see race log)"}
+				res.RaceText = newRace
+			}
 		}
 		if c.Over && ctx.viol == nil {
 			ctx.viol = &Violation{Property: "HARNESS", Oracle: "choice-limit", Signature: "choice-limit", Message: "run drew more than 200000 choices"}
@@ -247,6 +258,15 @@ func Main(t *testing.T, scens map[string]Scenario) {
 	}
 	merge := func(ctx *Ctx) {
 		res.Runs++
+		if f := os.Getenv("VW_TRACE_DUMP"); f != "" && ctx.Sim != nil {
+			// debugging aid for the determinism protocol: the step trace of every run, appended
+			if fh, err := os.OpenFile(f, os.O_APPEND|os.O_CREATE|os.O_WRONLY, 0644); err == nil {
+				for _, e := range ctx.Sim.Trace {
+					fmt.Fprintf(fh, "%d|%d|%s|%s|%s\n", e.Seq, e.Task, e.Kind, e.Point, e.Detail)
+				}
+				fh.Close()
+			}
+		}
 		if ctx.Sim != nil {
 			res.Steps += int64(ctx.Sim.Steps)
 			h := ctx.Sim.SchedHash()
@@ -364,6 +384,61 @@ func Main(t *testing.T, scens map[string]Scenario) {
 			t.Logf("choices=%v", res.Choices)
 		}
 	}
+}
+
+// raceLogSince returns what the race detector appended to this process's log file since the last call.
+func raceLogSince(off *int64) string {
+	p := ""
+	for _, f := range strings.Fields(os.Getenv("GORACE")) {
+		if strings.HasPrefix(f, "log_path=") {
+			p = strings.TrimPrefix(f, "log_path=") + "." + strconv.Itoa(os.Getpid())
+		}
+	}
+	if p == "" {
+		return ""
+	}
+	data, err := os.ReadFile(p)
+	if err != nil || int64(len(data)) <= *off {
+		return ""
+	}
+	out := string(data[*off:])
+	*off = int64(len(data))
+	return out
+}
+
+// dependencyOnlyRaces: true when the text holds at least one report and, in every report, neither access stack has
+// a frame of go-restli or of the harness. Anything unreadable counts as "not dependency-only" (fail loudly).
+func dependencyOnlyRaces(text string) (string, bool) {
+	reports := strings.Split(text, "WARNING: DATA RACE")
+	if len(reports) < 2 {
+		return "", false
+	}
+	sig := ""
+	for _, r := range reports[1:] {
+		if i := strings.Index(r, "\nGoroutine "); i >= 0 {
+			r = r[:i] // the two access stacks; creation stacks name whoever started the goroutines
+		} else {
+			return "", false
+		}
+		n := 0
+		for _, l := range strings.Split(r, "\n") {
+			t := strings.TrimSpace(l)
+			if !strings.HasPrefix(l, "  ") || strings.HasPrefix(t, "/") || !strings.HasSuffix(t, ")") {
+				continue
+			}
+			n++
+			if strings.Contains(t, "PapaCharlie/go-restli") || strings.HasPrefix(t, "vscratch/") || strings.HasPrefix(t, "verif/") {
+				return "", false
+			}
+			if sig == "" && !strings.HasPrefix(t, "runtime.") && !strings.HasPrefix(t, "sync") {
+				sig = strings.TrimSuffix(t, "()")
+			}
+		}
+		if n < 2 {
+			return "", false
+		}
+	}
+	return sig, true
 }
 
 func smoke(t *testing.T, name string, sc Scenario) {
